@@ -737,7 +737,8 @@ macro_rules! relation_to_query_translator_trait_constructor {
                 }
             }
             fn is_null(&self, expr: ast::Expr) -> ast::Expr {
-                ast::Expr::IsNull(Box::new(expr))
+                // IS NULL binds tighter than AND / OR / NOT
+                ast::Expr::IsNull(Box::new(ast::Expr::Nested(Box::new(expr))))
             }
             fn ilike(&self, exprs: Vec<ast::Expr>) -> ast::Expr {
                 assert!(exprs.len() == 2);
